@@ -6,7 +6,7 @@ RULE = ("sessions: 8 top-level statement sequences of length 5 (closure then lat
         "re-using local slots, const/iota groups, imports, try statements, a failing statement in the middle, globals, loop "
         "closures) x all 16 ways of cutting them into consecutive fragments, optimizer on and off; each fragment's value / error / "
         "log on a real Eval session must equal the TLA+ reference and the result of evaluating the concatenation so far as a single "
-        "fragment of a fresh session; non-trivial = at least one cut")
+        "fragment of a fresh session; non-trivial = at least one cut; sequences with negative zero and zero, fragments ending in an if / if-else / loop whose last inner statement is an expression (value undefined on every path)")
 
 def run(ctx):
     out = ctx.path("c10.ndjson")
